@@ -477,6 +477,34 @@ func runC20(c *explore.Ctx) {
 				m.check(c20Input{Entry: "coerce", Query: fmt.Sprintf("$v: %s value=%s", e.types[ti].String(), goRepr(vars["v"]))}, err, "coerce", false, nil)
 			}
 		}
+		if c.Shard == 0 {
+			// defaults that lex but do not convert (numbers beyond 64 bits), for built-in types (the
+			// document is invalid, a caller may coerce all the same) and for a custom scalar (valid)
+			sch, lerr := gqlparser.LoadSchema(&ast.Source{Name: "cd.graphql", Input: "scalar Any\ntype Query { f(i: Int, fl: Float, l: [Int], a: Any, ll: [[Float]]): Int }"})
+			if lerr != nil {
+				panic(lerr)
+			}
+			for _, decl := range []string{"$v: Int = 99999999999999999999", "$v: Float = 1e999", "$v: [Int] = [1, 99999999999999999999]", "$v: Any = 1e999", "$v: Any = [{k: 99999999999999999999}]", "$v: [[Float]] = [[1.5, -1e999]]", "$v: Int = -99999999999999999999"} {
+				q := "query Q(" + decl + ") { f }"
+				doc, perr := parser.ParseQuery(&ast.Source{Name: "q.graphql", Input: q})
+				if perr != nil {
+					continue
+				}
+				validator.Validate(sch, doc)
+				var err error
+				r := guarded(200000, 0, func() { _, err = validator.VariableValues(sch, doc.Operations[0], map[string]any{}) })
+				s.States++
+				s.Executions++
+				if r.Panicked {
+					continue
+				}
+				s.Validated++
+				if err != nil {
+					s.Nontrivial++
+					m.check(c20Input{Entry: "coerce", Query: q}, err, "coerce", false, nil)
+				}
+			}
+		}
 		for ti := range e.types {
 			if ti%c.NShards != c.Shard {
 				continue
